@@ -24,6 +24,9 @@ type InvCfg struct {
 	Procs     []string            `json:"Procs"`
 	ArgsOf    map[string][]string `json:"ArgsOf"`
 	Atomic    bool                `json:"Atomic"` // calls run to completion (multi-name configurations)
+	// Embedded: the index under test is the one embedded in backend d1 (ShardedMap / SyncMap / ShardedMapOf embed an
+	// InvalidationIndex with themselves registered under "default"); d1 cannot be wrapped, so calls are atomic.
+	Embedded bool `json:"Embedded"`
 }
 
 type invResJ struct {
@@ -294,8 +297,16 @@ func TestInvReplay(t *testing.T) {
 			r.bes[d] = NewBackend(kind, cache.Config{Name: d})
 		}
 
+		if cfg.Embedded {
+			r.idx = r.bes["d1"].Index()
+		}
+
 		for _, n := range cfg.Names {
 			for _, d := range cfg.InitRegd[n] {
+				if cfg.Embedded && d == "d1" {
+					continue // registered by the backend's constructor
+				}
+
 				r.idx.AddCache(n, &gateDeleter{s: s, id: d, inner: r.bes[d].Raw().(cache.Deleter)})
 			}
 		}
